@@ -306,6 +306,60 @@ def c12(run):
     run.exhaustive = False
 
 
+# ------------------------------------------------------------------------------------------------ C18
+def c18(run):
+    run.rule = ("MC + GEN: BclCLI is the flag loop of cmd/bcl as a machine over argument records (short, long, clustered flags, unknown flags, --bdump[=F], --bload[=F], --, -, "
+                "six file names: succeeding / syntax error / runtime error / not a .bcl name / a dump / missing); invariant Commute (swapping adjacent pure flag arguments never "
+                "changes the outcome class except into help/usage); every argument vector of <= N arguments (N=2 quick, 3 thorough) plus seeded random vectors of <= 5 is run "
+                "through the binary built from /repo: exit status, stream discipline, dump file written or not, standard output equal to what the library prints for the same "
+                "input and options, --bload of the --bdump file reproducing output and status. Non-trivial = >= 2 arguments; distinct by argv.")
+    bin_ = vlib.build_cli()
+    q = run.quick
+    run.gen_replay("BclCLI", cfg(constants=dict(MaxArgs=2 if q else 3), invariants=("Emit", "Commute")), ["replay-cli", "--bin", bin_], "C18:all")
+    run.gen_replay("BclCLI", cfg(constants=dict(MaxArgs=5), invariants=("Emit",)), ["replay-cli", "--bin", bin_], "C18:sim",
+                   simulate=10 ** 9, depth=6, workers=1, max_cases=3000 if q else 30000)
+    run.exhaustive = False
+
+
+# ------------------------------------------------------------------------------------------------ C19
+def c19(run):
+    import os, subprocess
+    run.rule = ("GEN + TV: programs of the C01/C03/C04/C17 families (accepted, rejected, failing at run time) are run under all eight combinations of OptDisasm/OptTrace/"
+                "OptStats: error, diagnostics, blocks and binding must equal the option-free run, the output writer's lines minus the classified listing/trace/statistics "
+                "lines must equal the option-free output, no panic. The extra text of the all-on run is turned into events and validated by Trace_Obs against BclVM on the "
+                "decoded real dump: one disassembly line per instruction at its offset with the right mnemonic, one trace pair per executed instruction (offset, mnemonic, "
+                "operand depth), as many as xstats.opsRead, counters as the machine computes them. Non-trivial = every program (distinct by source).")
+    q = run.quick
+    srcs = [("Gen_Prog", gen_cfg(dict(Scope="bind", MaxItems=3)), {}),
+            ("Gen_Prog", gen_cfg(dict(Scope="blocks", MaxItems=2)), {}),
+            ("Gen_Expr", gen_cfg(dict(Scope="types", ShapeLeaves=3)), {}),
+            ("Gen_Gram", gen_cfg(dict(Scope="all", MaxLen=3)), {}),
+            ("Gen_Expr", gen_cfg(dict(Scope="sim", ShapeLeaves=3)), dict(simulate=10 ** 9, depth=12, workers=1, max_cases=20000 if q else 100000))]
+    cases = os.path.join(run.scratch, "obs.cases")
+    with open(cases, "w") as f:
+        for mod, c, kw in srcs:
+            p = subprocess.Popen(["cat"], stdin=subprocess.PIPE, stdout=f, text=True)
+            r = run.tlc(mod, c, consumer=p, label="C19:gen:" + mod, **kw)
+            p.stdin.close()
+            p.wait()
+    tr = os.path.join(run.scratch, "obs.ndjson")
+    s = run.vh(["drive-obs", "--out", tr, "--max", "2500" if q else "25000", "--stride", "23" if q else "3"], "C19:drive", input_path=cases)
+    n = (s.get("extra") or {}).get("traces", 0)
+    if n == 0:
+        raise Inconclusive("no observation traces")
+    run.traces -= s.get("judged", 0)
+    exe = vlib.build_harness()
+
+    def redrive(srcp, outp):
+        src = open(srcp, "rb").read()
+        tmp = outp + ".case"
+        with open(tmp, "w") as f:
+            f.write(json.dumps(dict(src=list(src))) + "\n")
+        subprocess.run([exe, "drive-obs", "--in", tmp, "--out", outp, "--result", outp + ".json"], stdout=subprocess.DEVNULL)
+    run.tv("Trace_Obs", VMC, tr, "C19:tlc", s.get("judged", 0), redrive=redrive)
+    run.exhaustive = False
+
+
 # ------------------------------------------------------------------------------------------------ C16
 def c16(run):
     run.rule = ("GEN: bind cases (descriptor x block) with the specification's flag 'sens' = two or more failing entries or keys colliding on one field "
@@ -366,6 +420,8 @@ CHECKS = {
     "C11": (c11, "model_checking"),
     "C12": (c12, "model_checking"),
     "C13": (c13, "model_checking"),
+    "C18": (c18, "model_checking"),
+    "C19": (c19, "model_checking"),
     "C15": (c15, "model_checking"),
     "C16": (c16, "model_checking"),
     "C17": (c17, "model_checking"),
